@@ -6,6 +6,8 @@ use crate::refmodel::space::{Space, V3};
 pub const U32: f64 = 5.960464477539063e-8; // 2^-24
 pub const U64: f64 = 1.1102230246251565e-16; // 2^-53
 pub const K: f64 = 64.0;
+/// f32 chains accumulate several roundings per step and amplify them through every later step
+pub const K32: f64 = 512.0;
 /// relative accuracy of the hard-coded 7-digit matrices / published short constants
 pub const EPS_CONST: f64 = 2e-6;
 
@@ -72,8 +74,8 @@ pub fn sensitivity(src: Space, dst: Space, x: &V3, eps_in: f64, eps_mid: f64) ->
 
 /// tolerance for comparing palette's src -> dst result with the model, in dst's comparison space
 pub fn tolerance(src: Space, dst: Space, x: &V3, is_f32: bool) -> f64 {
-    let u = if is_f32 { U32 } else { U64 };
-    let eps_xyz = K * u + if crosses_constants(src, dst) { EPS_CONST } else { 0.0 };
-    let floor = dst.scale() * if is_f32 { 4.0 * U32 } else { 1e-7 };
-    floor + sensitivity(src, dst, x, K * u, eps_xyz)
+    let (u, k) = if is_f32 { (U32, K32) } else { (U64, K) };
+    let eps_xyz = k * u + if crosses_constants(src, dst) { EPS_CONST } else { 0.0 };
+    let floor = dst.scale() * if is_f32 { 16.0 * U32 } else { 1e-7 };
+    floor + sensitivity(src, dst, x, k * u, eps_xyz)
 }
